@@ -4,6 +4,7 @@ import (
 	"fmt"
 	"go/token"
 	"go/types"
+	"math/big"
 	"sort"
 	"strings"
 
@@ -168,6 +169,221 @@ func runScanStart(c *core.Ctx) []core.Obligation {
 		}
 	} else {
 		b.addP(props, core.Undecided, "string:control-loop-start", "-", "json.(decoder).parseString not found")
+	}
+	return b.out
+}
+
+// R-REMAINDER — a parser's remainder is never dropped: every call of a json parse function that
+// returns (value, remainder, ...) uses the remainder (continues parsing from it, tests that it is
+// empty, returns it). A validation that ignores the remainder accepts "1 x" as "1".
+func init() {
+	Register(&Rule{
+		ID:    "R-REMAINDER",
+		Doc:   "every call site of a json.decoder parse*/ json parse helper whose second result is the unconsumed input extracts that result and uses it (another parse call, len()/skipSpaces test, return, store); leading whitespace is skipped before validating the output of user MarshalJSON methods",
+		Props: []string{"C01", "C05", "C14", "C02", "C11"},
+		Min:   map[string]int{"C01": 3, "C05": 20, "C14": 3, "C02": 20, "C11": 2},
+		Run:   runRemainder,
+	})
+}
+
+// remainderDroppedOK: call sites where the remainder is irrelevant, with the reason.
+var remainderDroppedOK = map[string]string{
+	"remainder:json.(*Tokenizer).Int:parseInt":                          "the input is t.Value, a single token already delimited by the tokenizer",
+	"remainder:json.(*Tokenizer).Uint:parseUint":                        "the input is t.Value, a single token already delimited by the tokenizer",
+	"remainder:json.(*Tokenizer).String:parseStringUnquote":             "the input is t.Value, a single token already delimited by the tokenizer",
+	"remainder:json.(decoder).decodeDynamicNumber:parseNumber":          "pre-scan for the number kind only; the value is decoded, and its remainder returned, by the decode call that follows",
+	"remainder:json.(decoder).decodeFromStringToInt:parseNumber#2":      "runs after the decode already failed, only to choose which error to return",
+	"remainder:json.(decoder).decodeFromStringToInt:parseValue":         "runs after the decode already failed, only to choose which error to return",
+	"remainder:json.(decoder).decodeTextUnmarshaler:parseStringUnquote": "the input is exactly the string value delimited by the preceding parseValue",
+}
+
+func runRemainder(c *core.Ctx) []core.Obligation {
+	b := newOb(c, "R-REMAINDER")
+	var fns []*ssa.Function
+	for _, fn := range c.RepoFunctions() {
+		if fn.Blocks != nil && fn.Synthetic == "" && strings.HasPrefix(shortName(fn), "json.") {
+			fns = append(fns, fn)
+		}
+	}
+	sort.Slice(fns, func(i, j int) bool { return shortName(fns[i]) < shortName(fns[j]) })
+	for _, fn := range fns {
+		name := shortName(fn)
+		props := []string{"C05", "C02"}
+		switch {
+		case strings.HasPrefix(name, "json.(encoder)"):
+			props = []string{"C01", "C05", "C14"}
+		case strings.Contains(name, "Decoder") || strings.Contains(name, "Tokenizer"):
+			props = []string{"C11", "C05", "C02"}
+		}
+		kn := map[string]int{}
+		for _, ci := range callsIn(fn) {
+			call, ok := ci.(*ssa.Call)
+			if !ok {
+				continue
+			}
+			callee := staticCallee(call.Common())
+			if callee == nil || !c.InRepo(callee) || !strings.HasPrefix(callee.Name(), "parse") {
+				continue
+			}
+			res := callee.Signature.Results()
+			if res.Len() < 2 {
+				continue
+			}
+			// the remainder: the []byte result that follows the value
+			ri := -1
+			for i := 1; i < res.Len(); i++ {
+				if sl, ok := res.At(i).Type().Underlying().(*types.Slice); ok {
+					if bt, ok := sl.Elem().Underlying().(*types.Basic); ok && bt.Kind() == types.Uint8 {
+						ri = i
+						break
+					}
+				}
+			}
+			if ri < 0 {
+				continue
+			}
+			kn[callee.Name()]++
+			key := fmt.Sprintf("remainder:%s:%s", name, callee.Name())
+			if kn[callee.Name()] > 1 {
+				key = fmt.Sprintf("%s#%d", key, kn[callee.Name()])
+			}
+			used := false
+			for _, ref := range *call.Referrers() {
+				if ex, ok := ref.(*ssa.Extract); ok && ex.Index == ri && len(*ex.Referrers()) > 0 {
+					used = true
+				}
+			}
+			switch {
+			case used:
+				b.addP(props, core.Discharged, key, c.InstrPos(call), "the unconsumed input is used")
+			case remainderDroppedOK[key] != "":
+				b.addP(props, core.Discharged, key, c.InstrPos(call), "remainder dropped: "+remainderDroppedOK[key])
+			default:
+				b.addP(props, core.Violation, key, c.InstrPos(call), fmt.Sprintf("%s calls %s and drops the unconsumed input: whatever follows the first value is neither parsed nor rejected, so text such as \"1 x\" or \"1]\" is treated as the value 1", name, callee.Name()))
+			}
+		}
+	}
+	// MarshalJSON output: whitespace skipped before validation
+	if fn := c.Lookup("json.(encoder).encodeJSONMarshaler"); fn != nil {
+		ok := false
+		var at ssa.Instruction
+		for _, ci := range callsIn(fn) {
+			callee := staticCallee(ci.Common())
+			if callee != nil && callee.Name() == "parseValue" {
+				at = ci
+				for _, a := range ci.Common().Args {
+					if dependsOn(a, func(x ssa.Value) bool {
+						cl, isCall := x.(*ssa.Call)
+						return isCall && strings.HasSuffix(calleeName(cl.Common()), "json.skipSpaces")
+					}) {
+						ok = true
+					}
+				}
+			}
+		}
+		key := "marshaler-output:leading-space"
+		switch {
+		case at == nil:
+			b.addP([]string{"C01", "C05"}, core.Undecided, key, c.FuncPos(fn), "no parseValue call validating the MarshalJSON output found")
+		case ok:
+			b.addP([]string{"C01", "C05"}, core.Discharged, key, c.InstrPos(at), "skipSpaces precedes the validation")
+		default:
+			b.addP([]string{"C01", "C05"}, core.Violation, key, c.InstrPos(at), "the output of a user MarshalJSON method is validated without skipping leading whitespace: \" 1\", which encoding/json accepts and compacts to 1, is rejected")
+		}
+	}
+	return b.out
+}
+
+// R-OVERFLOW — decimal accumulation cannot wrap unnoticed: every value*10 on an accumulator of a
+// 64-bit integer type in the json number parsers is dominated by a comparison that bounds the
+// accumulator by max/10 (min/10 when accumulating negatively), and the following addition or
+// subtraction is itself checked.
+func init() {
+	Register(&Rule{
+		ID:    "R-OVERFLOW",
+		Doc:   "interval facts from the dominating branch edges: at every multiplication by 10 of a loop-carried 64-bit accumulator in json's parseInt/parseUint the accumulator is proven <= max(T)/10 (or >= min(T)/10), and the digit is added under a wrap test (next < value, or value < min + x)",
+		Props: []string{"C02", "C14", "C17"},
+		Min:   map[string]int{"C02": 3, "C14": 3, "C17": 3},
+		Run:   runOverflow,
+	})
+}
+
+func runOverflow(c *core.Ctx) []core.Obligation {
+	b := newOb(c, "R-OVERFLOW")
+	props := []string{"C02", "C14", "C17"}
+	maxOf := map[types.BasicKind][2]string{
+		types.Int64:  {"-9223372036854775808", "9223372036854775807"},
+		types.Uint64: {"0", "18446744073709551615"},
+		types.Int:    {"-9223372036854775808", "9223372036854775807"},
+		types.Uint:   {"0", "18446744073709551615"},
+	}
+	n := 0
+	for _, fnName := range []string{"json.(decoder).parseInt", "json.(decoder).parseUint"} {
+		fn := c.Lookup(fnName)
+		if fn == nil {
+			b.addP(props, core.Undecided, "overflow:"+fnName, "-", "function not found")
+			continue
+		}
+		k := 0
+		for _, blk := range fn.Blocks {
+			for _, in := range blk.Instrs {
+				mul, ok := in.(*ssa.BinOp)
+				if !ok || mul.Op != token.MUL {
+					continue
+				}
+				ten, isK := constInt(mul.Y)
+				if !isK || ten != 10 {
+					continue
+				}
+				bt, ok := mul.Type().Underlying().(*types.Basic)
+				if !ok {
+					continue
+				}
+				lim, ok := maxOf[bt.Kind()]
+				if !ok {
+					continue
+				}
+				k++
+				n++
+				key := fmt.Sprintf("overflow:%s:mul10#%d", fnName, k)
+				lo, hi := rangeFacts(mul.X, blk)
+				minV, _ := new(big.Int).SetString(lim[0], 10)
+				maxV, _ := new(big.Int).SetString(lim[1], 10)
+				tenB := big.NewInt(10)
+				hiOK := hi != nil && hi.Cmp(new(big.Int).Quo(maxV, tenB)) <= 0
+				loOK := lo != nil && lo.Cmp(new(big.Int).Quo(minV, tenB)) >= 0 && minV.Sign() < 0
+				// which direction does the accumulator move?
+				negative := false
+				for _, ref := range *mul.Referrers() {
+					if bo, ok := ref.(*ssa.BinOp); ok && bo.Op == token.SUB && bo.X == ssa.Value(mul) {
+						negative = true
+					}
+					if st, ok := ref.(*ssa.Phi); ok {
+						for _, r2 := range *st.Referrers() {
+							if bo, ok := r2.(*ssa.BinOp); ok && bo.Op == token.SUB && bo.X == ssa.Value(st) {
+								negative = true
+							}
+						}
+					}
+				}
+				switch {
+				case !negative && hiOK, negative && loOK:
+					b.addP(props, core.Discharged, key, c.InstrPos(mul), "the accumulator is bounded by max/10 (min/10) before it is multiplied by 10")
+				default:
+					have := "no bound"
+					if hi != nil {
+						have = "<= " + hi.String()
+					}
+					if negative && lo != nil {
+						have = ">= " + lo.String()
+					}
+					b.addP(props, core.Violation, key, c.InstrPos(mul), fmt.Sprintf("%s multiplies its accumulator by 10 with %s proven: the product can wrap past the old value, which the 'next < value' test after the addition does not notice (21000000000000000000 decodes as 2553255926290448384 without error)", fnName, have))
+				}
+			}
+		}
+	}
+	if n == 0 {
+		b.addP(props, core.Undecided, "overflow", "-", "no decimal accumulation found in parseInt/parseUint")
 	}
 	return b.out
 }
